@@ -19,12 +19,103 @@ ASSUMPTIONS = ['text is XML-legal Unicode (lxml refuses control characters)', 'p
                'where the original has no heights (import guesses them) or no index (export writes the position) only the fixpoint and the remaining fields are required']
 N = {'quick': 1200, 'thorough': 40000}
 CLASSES = ['mixed', 'mixed', 'reading_order_full', 'reading_order_partial', 'text_classes', 'coord_classes', 'empty_page', 'many_regions']
-REQUIRED = ['reloads_after_edit', 'roundtrips', 'fixpoints', 'regions_compared', 'lines_compared', 'reading_order_pages', 'reading_order_nonidentity', 'file_variant', 'bytesio_variant']
+REQUIRED = ['exports_after_edit', 'edit:insert_line', 'edit:swap_reading_order_values', 'edit:reverse_regions', 'reloads_after_edit', 'roundtrips', 'fixpoints', 'regions_compared', 'lines_compared', 'reading_order_pages', 'reading_order_nonidentity', 'file_variant', 'bytesio_variant']
 SHARDS = {'quick': 4, 'thorough': 16}
 
 TEXTS = [None, '', ' ', '   ', ' lead', 'trail ', '  both  ', 'a<b>&amp;"\'c', ']]>', '<![CDATA[x]]>', 'é combining ạ̈', 'שלום עולם',
          'مرحبا abc 123', '\U0001F600 astral \U00020000', '\t tab\there', 'line\nbreak', 'cr\rx', 'crlf\r\nx', 'nel\u0085x', 'ls ps x',
          'nbsp x', '﻿bom', 'x' * 2048, '&#13; literal entity text', "quote ' \" mix", 'zero​width', 'plain text line']
+
+
+EDITS = ['insert_line', 'reverse_lines', 'delete_line', 'swap_reading_order_values', 'reverse_regions', 'swap_regions', 'add_region', 'remove_region',
+         'set_text', 'new_reading_order', 'drop_reading_order', 'reading_order_entry_removed', 'nothing']
+
+
+def apply_edit(L, pl, desc, e):
+    """The same edit on the long-lived page object and on its description; returns False when the edit does not apply."""
+    kind, a, b = e['kind'], e['a'], e['b']
+    regs = desc['regions']
+    if kind == 'nothing':
+        return True
+    if kind in ('insert_line', 'reverse_lines', 'delete_line', 'set_text'):
+        if not regs:
+            return False
+        k = a % len(regs)
+        dl, ol = regs[k]['lines'], pl.regions[k].lines
+        if kind == 'insert_line':
+            pos = b % (len(dl) + 1)
+            d = {'id': 'new-%d-%d' % (a, b), 'baseline': [[1.0, 2.0], [30.0, 2.0]], 'polygon': [[1.0, 0.0], [30.0, 0.0], [30.0, 5.0], [1.0, 5.0]], 'heights': [3.0, 1.0],
+                 'index': None, 'transcription': 'inserted', 'conf': None}
+            dl.insert(pos, d)
+            ol.insert(pos, make_line(L, d))
+            return True
+        if not dl:
+            return False
+        if kind == 'reverse_lines':
+            dl.reverse()
+            ol.reverse()
+            return len(dl) > 1
+        if kind == 'delete_line':
+            del dl[b % len(dl)]
+            del ol[b % len(ol)]
+            return True
+        dl[b % len(dl)]['transcription'] = 'edited %d' % b
+        dl[b % len(dl)]['conf'] = 0.5
+        ol[b % len(ol)].transcription = 'edited %d' % b
+        ol[b % len(ol)].transcription_confidence = 0.5
+        return True
+    if kind == 'reverse_regions':
+        regs.reverse()
+        pl.regions.reverse()                      # in place: the list object stays the same
+        return len(regs) > 1
+    if kind == 'swap_regions':
+        if len(regs) < 2:
+            return False
+        i, j = a % len(regs), b % len(regs)
+        regs[i], regs[j] = regs[j], regs[i]
+        new = list(pl.regions)
+        new[i], new[j] = new[j], new[i]
+        pl.regions = new                          # a new list object
+        return i != j
+    if kind == 'add_region':
+        d = {'id': 'added-%d' % a, 'polygon': [[0.0, 0.0], [9.0, 0.0], [9.0, 9.0]], 'type': None, 'text': None, 'lines': []}
+        pos = b % (len(regs) + 1)
+        regs.insert(pos, d)
+        pl.regions.insert(pos, make_region(L, d))
+        return True
+    if kind == 'remove_region':
+        if not regs:
+            return False
+        del regs[a % len(regs)]
+        del pl.regions[a % len(pl.regions)]
+        return True
+    ro = desc['reading_order']
+    if kind == 'swap_reading_order_values':
+        if not ro or len(ro) < 2:
+            return False
+        keys = list(ro)
+        i, j = keys[a % len(keys)], keys[b % len(keys)]
+        ro[i], ro[j] = ro[j], ro[i]
+        pl.reading_order[i], pl.reading_order[j] = pl.reading_order[j], pl.reading_order[i]     # in place: the dict object stays the same
+        return i != j
+    if kind == 'reading_order_entry_removed':
+        if not ro:
+            return False
+        k = list(ro)[a % len(ro)]
+        del ro[k]
+        del pl.reading_order[k]
+        return True
+    if kind == 'new_reading_order':
+        ids = [r['id'] for r in regs]
+        ids = ids[b % (len(ids) + 1):] + ids[:b % (len(ids) + 1)]
+        desc['reading_order'] = {rid: n for n, rid in enumerate(ids)}
+        pl.reading_order = dict(desc['reading_order'])
+        return True
+    if kind == 'drop_reading_order':
+        desc['reading_order'] = None
+        pl.reading_order = None
+        return ro is not None
+    raise AssertionError(kind)
 
 
 def setup(ctx):
@@ -91,24 +182,39 @@ def gen(rng, i, ctx):
             ro['no-such-region'] = int(rng.integers(0, 5))
         if rng.random() < 0.3 and len(perm) >= 2:
             ro[perm[0]] = ro[perm[1]]          # equal indices: stable
-    return {'id': ['page.jpg', 'p 1/é&.png', 'x'][int(rng.integers(0, 3))], 'size': [int(rng.integers(0, 9000)), int(rng.integers(0, 9000))],
+    case = {'id': ['page.jpg', 'p 1/é&.png', 'x'][int(rng.integers(0, 3))], 'size': [int(rng.integers(0, 9000)), int(rng.integers(0, 9000))],
             'regions': regions, 'reading_order': ro, 'version': int(rng.integers(1, 3)), 'variant': ['string', 'file', 'bytesio'][int(rng.integers(0, 3))]}
+    # drawn last so that the layouts of earlier rounds stay the same: heights that round to zero, and the edits of the long-lived-page leg
+    for r in regions:
+        for l in r['lines']:
+            if l['heights'] is not None and rng.random() < 0.12:
+                l['heights'] = [[0.0, 0.0], [0.04, 0.02], [0.0, 0.049], [0, 0]][int(rng.integers(0, 4))]
+    case['edits'] = [{'kind': EDITS[int(rng.integers(0, len(EDITS)))], 'a': int(rng.integers(0, 1000)), 'b': int(rng.integers(0, 1000))} for _ in range(int(rng.integers(1, 4)))]
+    return case
 
 
 def describe(case):
     return case
 
 
+def make_line(L, l):
+    return L.TextLine(id=l['id'], baseline=np.array(l['baseline']), polygon=np.array(l['polygon']),
+                      heights=None if l['heights'] is None else list(l['heights']), transcription=l['transcription'],
+                      index=l['index'], transcription_confidence=l['conf'])
+
+
+def make_region(L, r):
+    reg = L.RegionLayout(r['id'], np.array(r['polygon'], dtype=np.float64), region_type=r['type'])
+    reg.transcription = r['text']
+    for l in r['lines']:
+        reg.lines.append(make_line(L, l))
+    return reg
+
+
 def build(L, case):
     pl = L.PageLayout(id=case['id'], page_size=tuple(case['size']))
     for r in case['regions']:
-        reg = L.RegionLayout(r['id'], np.array(r['polygon'], dtype=np.float64), region_type=r['type'])
-        reg.transcription = r['text']
-        for l in r['lines']:
-            reg.lines.append(L.TextLine(id=l['id'], baseline=np.array(l['baseline']), polygon=np.array(l['polygon']),
-                                        heights=None if l['heights'] is None else list(l['heights']), transcription=l['transcription'],
-                                        index=l['index'], transcription_confidence=l['conf']))
-        pl.regions.append(reg)
+        pl.regions.append(make_region(L, r))
     if case['reading_order'] is not None:
         pl.reading_order = dict(case['reading_order'])
     return pl
@@ -239,3 +345,30 @@ def check(case, mon, ctx):
                           'at': d, 'second_load': strip_ts(x2b)[max(0, d - 80):d + 80], 'first_load': strip_ts(x2)[max(0, d - 80):d + 80]})
     except Exception as e:
         mon.violation('roundtrip-raises', {'exception': repr(e)[:300], 'step': 'reload after in-place edit'})
+
+    # history on one long-lived page: it was exported above; now it is edited and exported again.  What is written must be what a page built
+    # from scratch with the edited content writes (export is a function of the page's content, and regions are held in reading order).
+    import copy
+    desc = copy.deepcopy(case)
+    desc['regions'] = [copy.deepcopy(r) for r in exp]            # the held order after the first export
+    try:
+        for step, e in enumerate(case.get('edits', [])):
+            applied = apply_edit(L, pl, desc, e)
+            x_long = pl.to_pagexml_string(version=ver)
+            fresh = build(L, desc)
+            x_fresh = fresh.to_pagexml_string(version=ver)
+            mon.count('exports_after_edit')
+            if applied:
+                mon.count('edit:' + e['kind'])
+            if strip_ts(x_long) != strip_ts(x_fresh):
+                d = next((k for k, (p, q) in enumerate(zip(strip_ts(x_long), strip_ts(x_fresh))) if p != q), min(len(x_long), len(x_fresh)))
+                mon.violation('export-depends-only-on-the-page-content', {'edits': case['edits'][:step + 1], 'at': d,
+                              'long_lived_page': strip_ts(x_long)[max(0, d - 100):d + 100], 'page_built_from_scratch': strip_ts(x_fresh)[max(0, d - 100):d + 100]},
+                              mechanism='export-after-edit:' + e['kind'])
+                break
+            if [r.id for r in pl.regions] != [r.id for r in fresh.regions]:
+                mon.violation('regions-in-reading-order', {'where': 'held after edit ' + e['kind'], 'got': [r.id for r in pl.regions], 'expected': [r.id for r in fresh.regions]})
+                break
+            desc['regions'] = sorted(desc['regions'], key=lambda r: (desc['reading_order'] or {}).get(r['id'], float('inf'))) if desc['reading_order'] is not None else desc['regions']
+    except Exception as e_:
+        mon.violation('roundtrip-raises', {'exception': repr(e_)[:300], 'step': 'export after edit', 'edits': case.get('edits')})
